@@ -548,7 +548,7 @@ def check_wire(prop: str, res: Result, repo: Repo, cas: List[ClassAnalysis]):
         fn = _fn_of(ca)
         helpers = ca.tree.by_name()
         for node, why in ca.tree.problems:
-            res.fail("R-WIRE", finding(prop, "R-WIRE", repo.find_method(ca.ci, "_initialise") or ca.ci, node, f"composition statement the analysis cannot interpret: {why}"))
+            res.errors.append(f"{getattr(repo.find_method(ca.ci, '_initialise'), 'where', ca.ci.name)} R-WIRE {ca.ci.name}._initialise: composition statement the analysis cannot interpret ({why}): `{norm_construct(node)[:90]}`")
         for s in ca.sites("dangling-managed"):
             res.fail("R-WIRE", finding(prop, "R-WIRE", fn, s.node, f"managed_indicators[{s.data['key']!r}] is never registered in _initialise (KeyError at run time)"))
         for s in ca.sites("read"):
